@@ -63,7 +63,17 @@ class HttpRelayClient(RelayPoolClient):
         result, envelope = self.poll()
         if result and envelope:
             self.idle = False
-            self._handle_request(result, envelope)
+            try:
+                self._handle_request(result, envelope)
+            except (gevent.Timeout, Exception) as exc:
+                # The caller of attempt() is waiting on this result.
+                if not result.ready():
+                    if isinstance(exc, gevent.Timeout):
+                        msg = 'Delivery timed out'
+                    else:
+                        msg = 'Delivery failed: {0!s}'.format(exc)
+                    result.set_exception(TransientRelayError(msg))
+                raise
         else:
             if self.conn:
                 self.conn.close()
@@ -121,7 +131,10 @@ class HttpRelayClient(RelayPoolClient):
                 message = match.group(2)
             elif match.group(1).lower() == 'command':
                 command = match.group(2)
-        return Reply(code, message, command)
+        try:
+            return Reply(code, message, command)
+        except ValueError:
+            return None
 
     def _process_response(self, http_res, result):
         status = '{0!s} {1}'.format(http_res.status, http_res.reason)
